@@ -719,6 +719,15 @@ fn emit_recalc(ctx: &mut Ctx, sim: &SpeedLimitTrainSim) {
     ctx.op("C03", "bp_recalc", &args, &format!("ok {}", tok_bp(&sim.braking_points)));
 }
 
+/// The harness's own statement of when the `ensure!` after `self.step()?` in the loop of `SpeedLimitTrainSim::walk_internal`
+/// fails (fix c76dec1): the train stood still for a whole step (`speed_prev` = speed before the step, `s` = state after it),
+/// is told to keep standing still and is still before the 1000 ft stopping window — no later step can change that state.
+/// The one expression behind the op `walk_stuck` (model `Tr.walkStuck`, regenerated `GenTr.walkStuck`), the stuck detection
+/// of `speed_limit_case` (whose verdict the REAL `walk()` must confirm) and the budgeted copy of the timed-path loop.
+fn walk_stuck(end: f64, ft1000: f64, speed_prev: f64, s: &TrainState) -> bool {
+    speed_prev == 0.0 && s.speed.value == 0.0 && s.speed_target.value == 0.0 && s.offset.value < end - ft1000
+}
+
 fn speed_limit_case(ctx: &mut Ctx, r: &mut Rng, max_steps: usize) {
     let Some(bu) = path_case(ctx, r, false, true) else { return; };
     let len = bu.tp.length.value;
@@ -806,6 +815,9 @@ fn speed_limit_case(ctx: &mut Ctx, r: &mut Rng, max_steps: usize) {
     let mut end = tpc.offset_end().value;
     let ft1000 = 1000.0 * uc::FT.value;
     let mut n = 0usize;
+    // the whole path is known before the first step (modes 0, 1): the real walk() from here must do what the loop below does
+    let start = if pending.is_empty() { Some(sim.clone()) } else { None };
+    let mut met_stuck = false;
     loop {
         // mid-run path extension (mode 2): add the next link when the front is within 1.5 km of the end of the path
         if !pending.is_empty() && sim.state.offset.value > end - 1500.0 {
@@ -922,7 +934,11 @@ fn speed_limit_case(ctx: &mut Ctx, r: &mut Rng, max_steps: usize) {
         sim.state.i += 1;
         // standing still with a zero target outside the stopping window: no later step can change the state; the real
         // walk() must end with a descriptive error here (it used to loop forever: fix 6e1c770)
-        if pending.is_empty() && pre.state.speed.value == 0.0 && sim.state.speed.value == 0.0 && sim.state.speed_target.value == 0.0 && sim.state.offset.value < end - ft1000 {
+        let stuck = walk_stuck(end, ft1000, pre.state.speed.value, &sim.state);
+        ctx.op("C03", "walk_stuck", &format!("{} {} {}", f(end), f(pre.state.speed.value), tok_state(&sim.state)), &format!("ok {}", b(stuck)));
+        if stuck { ctx.count("train.sl.walk_stuck_true"); }
+        if pending.is_empty() && stuck {
+            met_stuck = true;
             ctx.count("train.sl.stopped_short_of_window");
             ctx.checked("C03", "stopped_short_ends_with_error");
             let mut w = sim.clone();
@@ -948,6 +964,24 @@ fn speed_limit_case(ctx: &mut Ctx, r: &mut Rng, max_steps: usize) {
     let s = sim.state;
     ctx.checked("C03", "stops_inside_path");
     let cond = s.offset.value < end - ft1000 || (s.offset.value < end && s.speed.value != 0.0);
+    // the other direction of the stopped-short check: a run that the stepping loop above completed without meeting a stuck
+    // pair (by `walk_stuck`) is completed by the REAL walk() too — Ok(()), same final state (the repair changes no run that
+    // used to end: C03_walk_new_refines_old)
+    if let (false, false, Some(mut w)) = (cond, met_stuck, start) {
+        ctx.checked("C03", "walk_agrees_with_stepping");
+        ctx.count("train.sl.walk_replayed");
+        match guard(|| w.walk()) {
+            Some(Ok(())) => {
+                let ws = w.state;
+                if !(ws.offset == s.offset && ws.speed == s.speed && ws.time == s.time && ws.i == s.i && ws.energy_whl_out == s.energy_whl_out) {
+                    ctx.fail("C03", "walk_agrees_with_stepping", "end", format!("walk() ended at offset {} speed {} time {} i {}, step by step the same run ends at offset {} speed {} time {} i {}",
+                        ws.offset.value, ws.speed.value, ws.time.value, ws.i, s.offset.value, s.speed.value, s.time.value, s.i), input.clone());
+                }
+            }
+            Some(Err(e)) => ctx.fail("C03", "walk_agrees_with_stepping", "end", format!("step by step the run completes in {} steps without a stuck pair (offset {} of {}), walk() returned Err: {}", n, s.offset.value, end, format!("{:?}", e).chars().take(200).collect::<String>()), input.clone()),
+            None => ctx.fail("C03", "no_panic", "walk", format!("walk() panicked on a run that completes step by step: {}", last_panic()), input.clone()),
+        }
+    }
     if !cond {
         ctx.count("train.sl.completed");
         if !(s.offset.value <= end + 1e-6 && (s.speed.value == 0.0 || s.offset.value >= end)) || s.offset.value > end + 1e-6 {
@@ -1096,7 +1130,7 @@ fn timed_path_case(ctx: &mut Ctx, r: &mut Rng) {
         while probe.state.offset.value < end - ft1000 || (probe.state.offset.value < end && probe.state.speed.value != 0.0) {
             let v0 = probe.state.speed.value;
             probe.step()?; n += 1; if n > budget { return Ok(false); }
-            if v0 == 0.0 && probe.state.speed.value == 0.0 && probe.state.speed_target.value == 0.0 && probe.state.offset.value < end - ft1000 { anyhow::bail!("stopped short"); }
+            if walk_stuck(end, ft1000, v0, &probe.state) { anyhow::bail!("stopped short"); }
         }
         Ok(true)
     });
